@@ -1,6 +1,7 @@
 package checks
 
 import (
+	"bytes"
 	"encoding/json"
 	"fmt"
 	"math/rand/v2"
@@ -56,21 +57,21 @@ func stressFsChild(args []string) int {
 }
 
 type fsLinClient struct {
-	g      int
-	fs     filesys.Filesys
-	isDir  bool
-	seq    *atomic.Int64
-	log    []seqEv
-	r      *rand.Rand
-	unit   int
-	nextU  *int64
-	ntok   int
-	appH   []string // tokens of own live append handles
-	rdH    []string // tokens of own live read handles
-	files  map[string]filesys.File
-	known  [][2]string // paths this client knows to exist forever (shared / permanent)
-	priv   [][2]string // own private files that currently exist
-	nPriv  int
+	g     int
+	fs    filesys.Filesys
+	isDir bool
+	seq   *atomic.Int64
+	log   []seqEv
+	r     *rand.Rand
+	unit  int
+	nextU *int64
+	ntok  int
+	appH  []string // tokens of own live append handles
+	rdH   []string // tokens of own live read handles
+	files map[string]filesys.File
+	known [][2]string // paths this client knows to exist forever (shared / permanent)
+	priv  [][2]string // own private files that currently exist
+	nPriv int
 }
 
 func (c *fsLinClient) call(inv map[string]any, f func() map[string]any) map[string]any {
@@ -275,8 +276,31 @@ func (c *fsLinClient) burst(b int, bar *spinBarrier) {
 		}
 		return map[string]any{"ok": 0, "fd": -1}
 	})
+	if res["p"] == 0 && res["ok"] == 0 {
+		// somebody else created it: read it while its creator appends (an append is one atomic step, whatever its size)
+		c.ntok++
+		rtok := fmt.Sprintf("%d.%d", c.g, c.ntok)
+		r2 := c.call(map[string]any{"op": "open", "d": d, "n": n, "tok": rtok}, func() map[string]any {
+			f := c.fs.Open(d, n)
+			c.files[rtok] = f
+			return map[string]any{"fd": int(f)}
+		})
+		if r2["p"] == 0 {
+			for i := 0; i < 2; i++ {
+				c.call(map[string]any{"op": "readat", "tok": rtok, "off": 0, "len": 4}, func() map[string]any {
+					b := c.fs.ReadAt(c.files[rtok], 0, uint64(4*c.unit))
+					return map[string]any{"data": decodeUnits(b, c.unit, 241)}
+				})
+			}
+			c.call(map[string]any{"op": "close", "tok": rtok}, func() map[string]any {
+				c.fs.Close(c.files[rtok])
+				delete(c.files, rtok)
+				return nil
+			})
+		}
+	}
 	if res["p"] == 0 && res["ok"] == 1 {
-		us := c.units(1)
+		us := c.units(2)
 		c.call(map[string]any{"op": "append", "tok": tok, "data": us}, func() map[string]any {
 			c.fs.Append(c.files[tok], encodeUnits(us, c.unit))
 			return nil
@@ -321,6 +345,11 @@ func stressFs(fs filesys.Filesys, isDir bool, k, m int, r *rand.Rand, nextU *int
 	// sequential setup, logged like everything else
 	// bytes per abstract data unit: appends of 1-2 units are 1 byte ... 8 KiB long (several pages / copy chunks)
 	unit := []int{3, 1, 2500, 4096, 3, 700}[r.IntN(6)]
+	if isDir {
+		// DirFs: files stay within their first page (a write(2) that spans a page boundary racing with pread(2) is
+		// the known finding fs.dir.append-multi-page-vs-readat, probed separately)
+		unit = []int{3, 1, 5, 2, 3, 7}[r.IntN(6)]
+	}
 	setup := &fsLinClient{g: 99, fs: fs, isDir: isDir, seq: &seq, r: r, unit: unit, nextU: nextU, files: map[string]filesys.File{}}
 	for _, d := range linDirs {
 		d := d
@@ -621,7 +650,45 @@ func C14(c *ev.Ctx) {
 	c.Set("distinct_nontrivial", overl)
 	c.Set("rule", "evaluations = concurrent histories validated by FsLinTrace + forced schedules; distinct_nontrivial = operation responses that arrived while another client's operation was pending (real overlap) summed over histories")
 
+	dirAppendProbe(c)
 	raceChild(c, "race-fs", "machine/filesys")
+}
+
+// dirAppendProbe: DirFs.Append of more than one page racing with ReadAt on another descriptor (known finding).
+func dirAppendProbe(c *ev.Ctx) {
+	t := openFsTarget("dir/method", c.Scratch, 71)
+	defer t.close()
+	fs := t.fs
+	fs.Mkdir("pd")
+	const rec = 12288
+	torn := ""
+	for round := 0; round < c.Pick(40, 400) && torn == ""; round++ {
+		name := fmt.Sprintf("f%d", round)
+		w, ok := fs.Create("pd", name)
+		if !ok {
+			return
+		}
+		rd := fs.Open("pd", name)
+		done := make(chan struct{})
+		go func() {
+			defer close(done)
+			for i := 0; i < 20; i++ {
+				fs.Append(w, bytes.Repeat([]byte{byte(i + 1)}, rec))
+			}
+		}()
+		for i := 0; i < 400 && torn == ""; i++ {
+			b := fs.ReadAt(rd, 0, 21*rec)
+			if len(b)%rec != 0 {
+				torn = fmt.Sprintf("ReadAt saw %d bytes: %d whole %d-byte appends plus %d bytes of the next one", len(b), len(b)/rec, rec, len(b)%rec)
+			}
+		}
+		<-done
+		fs.Close(w)
+		fs.Close(rd)
+	}
+	if torn != "" {
+		c.Report("fs.dir.append-multi-page-vs-readat", "DirFs: an Append of 12288 bytes (three pages) is not one atomic step for a concurrent ReadAt through another descriptor: "+torn+" (write(2) and pread(2) on a regular file are not atomic with respect to each other on Linux)", nil)
+	}
 }
 
 func raceFsChild(args []string) int {
